@@ -96,6 +96,37 @@ theorem C07_order_indep (o₁ o₂ : Oracle) (i : Input) (h : DetOrder.WF i) : r
 theorem C07_writes (ord dir : Entries String String) (h : (keys ord).Nodup) (n : String) :
     DetOrder.get (writeAll ord dir) n = (DetOrder.get ord n).orElse (fun _ => DetOrder.get dir n) := get_putAll h dir n
 
+/-- in particular the content of a written file does not depend on what the directory held before the run - a stale
+    earlier output of the same name included, whether or not the new content is a prefix of it -/
+theorem C07_writes_any_dir (ord d₁ d₂ : Entries String String) (h : (keys ord).Nodup) (n : String)
+    (hn : (DetOrder.get ord n).isSome = true) :
+    DetOrder.get (writeAll ord d₁) n = DetOrder.get (writeAll ord d₂) n := by
+  rw [C07_writes ord d₁ h n, C07_writes ord d₂ h n]
+  cases hg : DetOrder.get ord n with
+  | none => rw [hg] at hn; cases hn
+  | some v => rfl
+
+/-- what each read of the file system in the CURRENT source looks at, and why the bytes written do not depend on it
+    beyond the model's inputs -/
+def readTable : List ((String × String × String) × String) := [
+  (("internal/mapper", "ParseFlags", "os.Stat"), "existence of the -path directory (command line check, Fatal if absent)"),
+  (("internal/restclient", "extractStructFields", "parser.ParseDir"), "finding F_structTwice"),
+  (("internal/restclient", "getPkgDir", "build.Import"), "directory of another package's parameter struct (envSites)"),
+  (("internal/shoot", "Clean", "filepath.Glob"), "after the writes: which other generated files to delete (-type=*)"),
+  (("internal/shoot", "ParseCommonFlags", "os.Stat"), "existence / kind of the [dir] and -file arguments (command line check)"),
+  (("internal/shoot", "firstLine", "os.Open"), "after the writes: header line of another generated file (Clean)"),
+  (("internal/shoot", "loadPkgs", "packages.Load"), "THE input: the package = hand-written ∪ generated files present ∪ overlay (GenState.effective)")]
+
+/-- second tie for `C07_writes`: every read of the file system in the CURRENT source (regenerated table
+    `Facts.readSites`) is one of the modelled ones, and the table has no stale entry -/
+theorem C07_read_sites_covered :
+    Facts.readSites.all (fun s => (readTable.lookup s).isSome) = true ∧
+    readTable.all (fun e => Facts.readSites.any (fun s => s = e.1)) = true := by decide
+
+/-- `main` (where `notedownSrc` writes the output: temp file, rename) reads nothing: it does not look at the target
+    before replacing it, so it cannot decide to keep an earlier output -/
+theorem C07_output_not_read : Facts.readSites.all (fun s => s.1 != "cmd/shoot") = true := by decide
+
 /-- headline (second tie): every `range` over a map in the CURRENT source has an order-independence argument or
     is listed as conditional (finding region / outside the input domain), and the table has no stale entry -/
 theorem C07_mapsites_covered :
